@@ -50,7 +50,7 @@ def parsePriorTable (j : Json) : Except String (List (Nat × PriorD Float)) := d
   (← getArr j "prior_table").toList.mapM fun p => do
     let id ← getNat p "id"
     let kind ← getStr p "kind"
-    pure (id, { kind := PriorKind.ofString kind, mean := (getFloat p "mean").toOption.getD 0.0,
+    pure (id, { kind := LpKind.ofString kind, mean := (getFloat p "mean").toOption.getD 0.0,
                 sigma := (getFloat p "sigma").toOption.getD 1.0 })
 
 def handleC04 (j : Json) : Except String Json := do
